@@ -29,6 +29,7 @@ def run(ctx):
     check_printf(ctx, prog)
     check_resize_keep(ctx, prog)
     check_search_restart(ctx, prog)
+    check_trim(ctx, prog)
     return __doc__.split('\n\n', 1)[1]
 
 
@@ -407,3 +408,80 @@ def check_search_restart(ctx, prog):
             ctx.check(bad is None, 'C03.search', f['pq'], role, fwhere(f, lp['l']), 'advance of 1 after each match',
                       '%s: an occurrence that overlaps the previous match is skipped, so the position returned is not the last one ("aaa".lastIndexOf("aa") gives 0)' % bad)
     ctx.floor('C03.search', n, 1)
+
+
+# ------------------------------------------------------------------ C03.trim
+
+def check_trim(ctx, prog, rule='C03.trim'):
+    """trimmed() / trim(): the two whitespace scans may stop anywhere their counter conditions allow (the data-dependent
+    conjuncts are unknown: an all-blank or blank-free string are both possible), and for every such pair of stop positions,
+    for every length 0..5, the cut `substring(i, e)` / the moved byte count must not be negative.  Loops are read through
+    their counting normal form; nothing is executed."""
+    import bounded, bytesets, itertools
+    n = 0
+    for name in ('asl::String::trimmed', 'asl::String::trim'):
+        for f in prog.fn(name):
+            if not f.get('body'):
+                continue
+            loops = [s_ for s_ in (f['body']['s'] if f['body'].get('k') == 'block' else []) if s_.get('k') in ('for', 'while')]
+            role = '%s:the kept range never has a negative length' % f['n']
+            cls = [q.counted_loop(f, lp, need_init=False) for lp in loops]
+            if len(loops) != 2 or any(c is None or not isinstance(c['step'], int) for c in cls):
+                ctx.undecided(rule, f['pq'], role, fwhere(f), 'two counting scan loops not recognised')
+                continue
+            n += 1
+            ctx.analysed(f)
+            # lengths to check: substring(a, b) -> b - a ; memmove(.., .., count) -> count
+            sites = []
+            for e in fn_exprs(f):
+                if e.get('k') == 'call' and (e.get('pq') or '').endswith('String::substring') and len(e.get('a', [])) == 2:
+                    sites.append(('substring', e['a'][0], e['a'][1], e))
+                if e.get('k') == 'call' and e.get('fn') in ('memmove', 'memcpy') and len(e.get('a', [])) == 3:
+                    sites.append(('count', None, e['a'][2], e))
+            if not sites:
+                ctx.undecided(rule, f['pq'], role, fwhere(f), 'no cut (substring / memmove) found after the scans')
+                continue
+            lenbind = lambda L: (lambda e: L if (e.get('k') == 'mem' and e.get('f') == '_len') or (e.get('k') == 'call' and (e.get('pq') or '').endswith('String::length') and not e.get('a')) else None)
+            bad = None
+            try:
+                for L in range(0, 6):
+                    # counters declared with their initial value before the scans are live from the start
+                    st0 = {}
+                    for cl in cls:
+                        if cl['loop'].get('init') is None and cl['init'] is not None:
+                            try:
+                                st0[cl['var']] = bounded.Bound(prog, f, dict(st0), {}, bind=lenbind(L)).ev(cl['init'])
+                            except bytesets.Undecidable:
+                                pass
+                    states = [st0]
+                    for cl in cls:
+                        nxt = []
+                        for st in states:
+                            ev0 = bounded.Bound(prog, f, dict(st), {}, bind=lenbind(L))
+                            if cl['init'] is None:
+                                raise bytesets.Undecidable('initial value of `%s` not found' % cl['name'])
+                            v = st[cl['var']] if (cl['loop'].get('init') is None and cl['var'] in st) else ev0.ev(cl['init'])
+                            for _ in range(12):
+                                env = dict(st)
+                                env[cl['var']] = v
+                                nxt.append(env)           # a data-dependent break / false conjunct can stop the scan here
+                                c = bounded.Bound(prog, f, env, {}, bind=lenbind(L)).ev3(cl['cond'])
+                                if c is False:
+                                    break
+                                v += cl['step']
+                            ctx.evaluations += 1
+                        states = nxt
+                    for st in states:
+                        ev = bounded.Bound(prog, f, st, {}, bind=lenbind(L))
+                        for kind, a_, b_, e in sites:
+                            ln = ev.ev(b_) - (ev.ev(a_) if a_ is not None else 0)
+                            if ln < 0 and bad is None:
+                                bad = (L, st, ln, e)
+            except bytesets.Undecidable as u:
+                ctx.undecided(rule, f['pq'], role, fwhere(f), 'scan bounds not evaluable: %s' % u)
+                continue
+            names = dict((c['var'], c['name']) for c in cls)
+            ctx.check(bad is None, rule, f['pq'], role, fwhere(f, bad[3]['l'] if bad else None), 'for lengths 0..5 and every pair of stop positions the kept length is >= 0',
+                      '%s: for a string of %d characters the scans can stop at %s and `%s` then has the length %d: a whitespace-only string yields a negative-length copy (memcpy with a negative size)' % (
+                          f['q'], bad[0] if bad else 0, ', '.join('%s = %s' % (names.get(k_, k_), v_) for k_, v_ in sorted((bad[1] if bad else {}).items(), key=str)), pe(bad[3]) if bad else '', bad[2] if bad else 0))
+    ctx.floor(rule, n, 1)
